@@ -51,6 +51,27 @@ for m in ["startVoting", "sendVoteProof", "sendVote", "finishVoting"]:
 for m in ["deposit", "push"]:
     _floors["RefundableOracleLock1.%s:ok" % m] = 1
 
+# ---- sub-deployments and pre-funded future contract addresses. wasm:deployer (c15_contracts.go) is a hand-assembled module that is not part
+# of the rotation of kinds: deployer contracts get a turn of their own in two of three steps, drawn from a PRNG stream of their own, so
+# these counts hardly depend on the seed (quick floors about 0.4 x the minimum over seeds 1..5, thorough floors 5 x like the sequences)
+for k, q in {
+    "wasm:deployer.deploy:ok": 6, "wasm:deployer.deploy:fail": 2, "chain_deployed:wasm:deployer": 6,
+    "wasm:deployer.make:ok": 200, "wasm:deployer.make:fail": 120,
+    "wasm_subdeploy_ok": 160,
+    # a sub-deployment whose target address held coins before the call was evaluated / created the contract, by where the coins came from
+    "subdeploy_prefunded_evaluated": 150, "subdeploy_prefunded_succeeded": 100,
+    "subdeploy_prefunded_evaluated:earlier-block": 60, "subdeploy_prefunded_succeeded:earlier-block": 50,
+    "subdeploy_prefunded_evaluated:same-block": 85, "subdeploy_prefunded_succeeded:same-block": 55,
+    # successful top-level deployments at an address that held coins (same-block pre-funding), embedded and WASM
+    "deploy_prefunded_succeeded:emb": 9, "deploy_prefunded_succeeded:wasm": 8,
+    # oracle (3b) applied / to successful txs / with lo = hi (exact); oracle (3c): addresses that became contracts / that held coins before
+    "oracle3b_sum_checked": 2200, "oracle3b_sum_checked_success": 1000, "oracle3b_sum_checked_success_exact": 1000,
+    "oracle3c_new_contracts_checked": 350, "oracle3c_new_contracts_checked_holding_coins": 120,
+}.items():
+    _floors[k] = (q, 5 * q)
+# the process-fatal reproduction ran both children (control and empty argument string)
+_floors["empty_slice_children_run"] = 2
+
 # ---- same-block sequences: [failed contract txs in front of / behind successful ones of other senders] versus the
 # same block without the failed ones (c15_seq_test.go). One sequence per chain step, the controlled ends rotate
 # deterministically through the failure classes, so these counts hardly depend on the seed (quick floors are about
@@ -111,14 +132,25 @@ _floors.update({
 
 SPEC = {
     "engine": "E1", "level": "exploration",
-    "technique": "twin blocks (same proposed block with / without one contract tx; same multi-tx block with / without its FAILED contract txs) + receipts + "
+    "technique": "twin blocks (same proposed block with / without one contract tx, optionally behind a SendTx that pre-funds the address the tx turns into a contract; "
+                 "same multi-tx block with / without its FAILED contract txs) + receipts + "
                  "K re-executions on fresh check states; generated deploy/call/terminate sequences on every embedded contract type and the bundled WASM contracts "
-                 "(recipient arguments incl. the contract's own address), also fed into a real multi-replica chain",
+                 "(recipient arguments incl. the contract's own address; sub-deployments at pre-funded addresses), also fed into a real multi-replica chain",
     "level_text": "Each generated contract transaction (valid shapes derived from the on-chain contract state; mutated arity / widths / garbage / foreign methods / "
                   "callers / pay amounts / tips / gas budgets incl. a sweep of budgets ending inside a successful execution) is built into a block by the real ProposeBlock "
                   "and applied by the real validateBlock next to its tx-free twin. Oracles: (1) a failed receipt => full state contents differ only in the sender's account, "
                   "the proposer's account/identity and the fee rate of Global; (2) sender charged <= MaxFee+tips, GasCost+txFee <= MaxFee, GasUsed <= (MaxFee-txFee)/feePerGas; "
-                  "(3) sum of balances+stakes+contract stakes does not grow, nothing negative in the pre-encoding view; (4) mini-models of TimeLock transfer, Multisig add/send/push, "
+                  "(3) sum of balances+stakes+contract stakes does not grow, nothing negative in the pre-encoding view; "
+                  "(3b) value is conserved to the unit: Sigma(block without the tx) - Sigma(block with it) - burnt share of the tx's fee (ToInt((size fee + gas cost) x FeeBurnRate), the rest "
+                  "and the tips go to the proposer) lies in [lo, hi], the coins the call semantics destroy explicitly: 0 for a failed tx, for every deployment and for every call except "
+                  "finishVoting / refund (BurnAll: at most what the contract holds), terminations (the unrefunded half of the stake, plus BurnAll) and the spender's burn(amount) (= amount) - "
+                  "nothing appears, nothing vanishes without a burn; (3c) every address the tx turns into a contract (the deployment's own or a sub-deployment's, read from the state diff) "
+                  "holds at least what it holds in the block without the tx: coins waiting on a future contract address survive its creation. "
+                  "Future contract addresses are PRE-FUNDED: the address of a WASM contract follows from (code, arguments, nonce), so the generator knows where a sub-deployment will create "
+                  "its contract (computed like the node does for the deployer's plans, read from the action tree of the first evaluation otherwise) and sends coins there with an ordinary SendTx "
+                  "one step (>= 1 block) EARLIER in the real chain (half of the deployer's plans) or in the SAME block (twin pair [SendTx, tx] versus [SendTx]: half of the calls whose action tree "
+                  "shows a sub-deployment, 12 % of the top-level deployments - embedded ones at the address their shifted nonce gives); "
+                  "(4) mini-models of the deployer (new contract = what its address held + endowment, deployer + pay amount - endowment; nothing moves when the sub-deployment fails), TimeLock transfer, Multisig add/send/push, "
                   "deploy/terminate bookkeeping, ERC-20 token conservation after success; (5) every contract block re-executed K>=4 times must be accepted with byte-identical "
                   "receipts, incl. the designated classes 'votes + finishVoting in one block' and 'deposits + refund in one block'. "
                   "(6) same-block sequences: once per chain step the contract txs of the step (incl. the gas-sweep variant that runs out of gas half-way) plus txs built to fail "
@@ -129,10 +161,14 @@ SPEC = {
                   "failed senders' nonce and charge <= MaxFee+tips, conservation. "
                   "Recipients: every method that names an address (TimeLock transfer, Multisig add/send/push, terminate refunds, lock deploy parameters / push / deposit fee, "
                   "spender send, ERC-20 transfer) is called with the contract's own address, the sender, the zero address, another contract, the proposer and the god address; "
-                  "the mini-models treat a payment of the contract to itself as neutral (balance changes by the pay amount only) and demand amount <= what the contract holds.",
-    "level_note": "trusted base: ProposeBlock/validateBlock twin construction, fee.CalculateFee for the size-based fee, state iteration; "
+                  "the mini-models treat a payment of the contract to itself as neutral (balance changes by the pay amount only) and demand amount <= what the contract holds. "
+                  "(7) a legal contract call never takes the process down: the deployer's make with an EMPTY packed-argument string (and, as the control, with the 1-byte encoding of "
+                  "'no arguments') is executed by the real WasmVM.Run in a child process from goroutines of 1200 stack depths in two shapes; the only acceptable outcomes are receipts.",
+    "level_note": "trusted base: ProposeBlock/validateBlock twin construction, fee.CalculateFee for the size-based fee, the one-line burn share ToInt(fees x FeeBurnRate) of applyBlockRewards, "
+                  "state iteration; which embedded methods may destroy coins (BurnAll callers: finishVoting, refund, terminations) is read off the source; "
                   "the Rust WASM runtime is linked as a prebuilt static library (its internals are observed only through receipts and state)",
-    "rule": "case = one contract tx evaluated as a twin pair, one designated multi-tx block, or one same-block sequence pair (block with >= 1 failed contract tx versus the "
+    "rule": "case = one contract tx evaluated as a twin pair (alone in its block, or behind a SendTx that pre-funds an address it turns into a contract), one designated multi-tx block, "
+            "one child process of the empty-argument reproduction, or one same-block sequence pair (block with >= 1 failed contract tx versus the "
             "same block without the failed ones); distinct_nontrivial = distinct (contract type, tx kind, method, outcome, error class, gas failure point) tuples that were "
             "included in a block and produced a receipt, plus distinct sequence shapes (ordered list of S(tx kind.engine) / F(tx kind.engine:failure class))",
     "jobs": [
@@ -144,6 +180,9 @@ SPEC = {
         # thorough only: AddressSanitizer on the Go/cgo glue of the WASM binding (the Rust archive itself is not instrumented)
         Job("wasm-asan", "verifsim", "^TestVerifC15$", asan=True, shards=(1, 2), timeout=(900, 7200), tiers=("thorough",),
             env={"C15_SLICE": "wasm", "C15_STEPS": "40", "ASAN_OPTIONS": "detect_leaks=0"}),
+        # a legal contract call must never take the process down: deployer.make with an EMPTY packed-argument string, executed in a
+        # child process from goroutines of every stack depth (reproduces the Go runtime's "invalid pointer found on stack")
+        Job("empty-slice-callback", "verifsim", "^TestVerifC15EmptySliceCallback$", shards=(1, 1), timeout=(600, 600)),
         # thorough only: > 30 000 blocks so that STARTED votings become terminable (V12 and V9)
         Job("long-termination", "verifsim", "^TestVerifC15LongTermination$", shards=(1, 2), timeout=(900, 7200), tiers=("thorough",)),
     ],
@@ -152,8 +191,16 @@ SPEC = {
     "assumptions": [
         "consensus configs V12 (most scenarios), V9 (pre-upgrade-10 OracleVoting / RefundableOracleLock), V10/V11 in the thorough tier",
         "WASM: nodes run with cfg.IsDebug=true because the bundled test contracts import env.debug, which the Rust runtime only provides in debug mode (its output on fd 1 is discarded)",
-        "the bundled binaries cannot reach a SUCCESSFUL sub-deployment on a chain: test-cases grants its sub-deployment 1e6 WASM gas while a deployment costs >= 3e6, and the "
-        "shared-fungible-token wallet has no way to mint tokens; failing sub-deployments inside successful calls and successful cross-contract calls (sum_func -> inc_func -> callback) are covered",
+        "the bundled binaries cannot reach a SUCCESSFUL sub-deployment on a chain: test-cases grants its sub-deployment 1e6 WASM gas while a deployment costs > 3e6, and the "
+        "shared-fungible-token wallet has no way to mint tokens (its transferTo never gets as far as deploying the destination's wallet); their failing sub-deployments inside successful calls "
+        "and successful cross-contract calls (sum_func -> inc_func -> callback) are covered. SUCCESSFUL sub-deployments come from a 215-byte hand-assembled module 'wasm:deployer' "
+        "(source in c15_contracts.go) whose make(code, packed args, nonce, amount, gas) forwards its arguments to the host's create_deploy_contract_promise: it sub-deploys the spender, itself, "
+        "inc_func and the token wallet, endowed with nothing / a part of / all of / one unit more than its coins, with ample, too little and absurd gas limits",
+        "oracle (3c) and the deployer mini-model assume that the constructors of the deployed codes move no coins (true for every module used here)",
+        "oracle (3b) is skipped when the proposer of the twin blocks carries a penalty (its reward is destroyed too); never the case in these worlds (counter oracle3b_skipped_proposer_penalty)",
+        "EMPTY byte strings are not passed through the deployer in the generated traffic (replaced by 00): an empty argument string kills the process at certain goroutine stack depths "
+        "(Go runtime 'invalid pointer found on stack': the Rust runtime passes empty slices to the Go host callbacks of idena-wasm-binding as ptr=0x1 in a pointer-typed field). "
+        "That event is reproduced deterministically by the job empty-slice-callback in a child process (signature process-fatal:wasm-host-callback:empty-byte-string-argument:empty-args)",
         "terminating a STARTED oracle voting needs > 30 000 blocks after the public phase: the quick tier only drives the termination of abandoned pending votings "
         "(30 days of virtual time) to success, the thorough tier adds a job that waits 30 359 empty blocks and terminates a finished and an unfinished voting (with a gas sweep over the payout loop)",
         "go test -asan builds and links here (thorough tier, WASM slice): only the Go/cgo glue of the WASM binding is instrumented, the prebuilt Rust archive is not",
